@@ -22,11 +22,12 @@ def sh(cmd, **kw):
     return subprocess.run(cmd, shell=True, stdout=subprocess.PIPE, stderr=subprocess.STDOUT, text=True, **kw)
 
 
-def harvest():
+def harvest(rnd=1):
     os.makedirs(SEEDED, exist_ok=True)
     for i in range(1, 20):
-        pid = "C%02d" % i
-        wt = "/tmp/wt_%s" % pid
+        prop = "C%02d" % i
+        pid = prop if rnd == 1 else "%s-%d" % (prop, rnd)
+        wt = "/tmp/wt%s_%s" % ("" if rnd == 1 else str(rnd), prop)
         patch = os.path.join(wt, "SEED_patch.diff")
         if not os.path.exists(patch):
             print(pid, "no patch yet")
@@ -48,7 +49,7 @@ def harvest():
         meta = {}
         if os.path.exists(meta_path):
             meta = json.load(open(meta_path))
-        meta.update({"property": pid, "origin": "sub-agent given only the property text and a scratch worktree of /repo",
+        meta.update({"property": prop, "origin": "sub-agent given only the property text and a scratch worktree of /repo",
                      "base_commit": sh("git -C %s rev-parse HEAD" % wt).stdout.strip(),
                      "files_touched": [l[6:] for l in diff.split("\n") if l.startswith("+++ b/")]})
         json.dump(meta, open(meta_path, "w"), indent=1)
@@ -82,7 +83,8 @@ def run(ids, all_checks):
             entry = results.setdefault(pid, {})
             entry["applies"] = True
             entry["tests"] = t.stdout.strip()
-            targets = [pid] if not all_checks else ["C%02d" % i for i in range(1, 20)]
+            prop = pid[:3]
+            targets = [prop] if not all_checks else ["C%02d" % i for i in range(1, 20)]
             entry.setdefault("checks", {})
             for c in targets:
                 r = sh("cd %s && ./check %s --tier quick" % (ROOT, c))
@@ -91,7 +93,7 @@ def run(ids, all_checks):
                 entry["checks"][c] = {"exit": r.returncode, "verdict": verdict[:2], "summary": lines[-1] if lines else ""}
                 print(pid, "->", c, "exit", r.returncode, (verdict[0] if verdict else ""), "|", lines[-1][-110:] if lines else "")
                 # keep the replay of the property's own check next to the seed
-                if c == pid and verdict and "replay=" in verdict[0]:
+                if c == prop and verdict and "replay=" in verdict[0]:
                     rp = verdict[0].split("replay=")[1].split()[0]
                     if os.path.exists(rp):
                         shutil.copy(rp, os.path.join(d, "replay_found.json"))
@@ -108,7 +110,7 @@ if __name__ == "__main__":
         print(__doc__)
         sys.exit(2)
     if sys.argv[1] == "harvest":
-        harvest()
+        harvest(int(sys.argv[2]) if len(sys.argv) > 2 else 1)
     elif sys.argv[1] == "run":
         args = [a for a in sys.argv[2:] if not a.startswith("--")]
         ids = args or sorted(x for x in os.listdir(SEEDED) if x.startswith("C"))
